@@ -133,6 +133,35 @@ type SW struct {
 	items []uint64
 }
 
+type NShape interface {
+	Area(k uint64) uint64
+}
+
+type NSquare struct {
+	side uint64
+}
+
+func (s NSquare) Area(k uint64) uint64 {
+	return s.side*s.side + k
+}
+
+type NCanvas struct {
+	sq    NSquare
+	scale uint64
+}
+
+func nmeasure(s NShape) uint64 {
+	return s.Area(1)
+}
+
+func nmeasure2(k uint64, s NShape) uint64 {
+	return s.Area(k) + k
+}
+
+func mkNSq(n uint64) NSquare {
+	return NSquare{side: n % 1000}
+}
+
 func mkXs(n uint64) []uint64 {
 	return make([]uint64, n)
 }
